@@ -48,12 +48,32 @@ def handle (w : World) (line : String) : World × String :=
     match n.toNat? with
     | some n => (step w (.advance n), "ok")
     | none => (w, "bad-op")
-  | ["dns", h, f, ttl, key] =>
-    match strOfHex? h, parseInt? ttl, strOfHex? key with
-    | some h, some ttl, some key =>
-      let r := dnsUpdate w h (f == "4") ttl key
+  | ["dns", h, q, ttl, key] =>
+    match strOfHex? h, q.toNat?, parseInt? ttl, strOfHex? key with
+    | some h, some q, some ttl, some key =>
+      let r := dnsUpdate w h q ttl key
       (r.1, if r.2 then "ok" else "bypass")
+    | _, _, _, _ => (w, "bad-op")
+  | ["dnsresp", resp, hasq, rok, h, q, ttl, key] =>
+    match strOfHex? h, q.toNat?, strOfHex? key with
+    | some h, some q, some key =>
+      let t : Option Nat := if ttl = "-" then none else ttl.toNat?
+      let gate := resp == "1" && hasq == "1" && rok == "1"
+      let r := dnsResp w (resp == "1") (hasq == "1") (rok == "1") h q t key
+      (r.1, if !gate then "skip" else if r.2 then "ok" else "bypass")
     | _, _, _ => (w, "bad-op")
+  | ["rmf", k] =>
+    match strOfHex? k with
+    | some k => (step w (.dnsRemoveFamily k), "ok")
+    | none => (w, "bad-op")
+  | ["evict", k] =>
+    match strOfHex? k with
+    | some k => (dnsEvict w k, "ok")
+    | none => (w, "bad-op")
+  | ["reload"] =>
+    -- CloneCacheForReload of the old store, RestoreReloadCache into a fresh one
+    (step (step w .dnsClose) (.dnsRestore w.cache), s!"restored={w.cache.length}")
+  | ["close"] => (step w .dnsClose, "ok")
   | ["rm", k] =>
     match strOfHex? k with
     | some k => (dnsRemove w k, "ok")
@@ -71,17 +91,29 @@ def handle (w : World) (line : String) : World × String :=
     | some ob, some dst, some d, some ans =>
       let (w1, c) := chooseDialTarget w ob dst d
       let (w2, calls) := afterProbe w1 c.probeReq ans
-      (w2, s!"t={hexOfStr c.target} rr={boolStr c.reroute} ip={boolStr c.dialIp} calls={calls}")
+      (w2, s!"t={hexOfStr c.target} rr={boolStr c.reroute} ip={boolStr c.dialIp} probe={boolStr (calls > 0)}")
     | _, _, _, _ => (w, "bad-op")
-  | "dial" :: ob :: dst :: d :: rt :: nOut :: ans =>
+  | "dial" :: ob :: dst :: d :: rt :: nOut :: fail :: ans =>
     match ob.toNat?, parseDst? dst, strOfHex? d, nOut.toNat?, ans.mapM parseAns? with
     | some ob, some dst, some d, some nOut, some ans =>
       let route : Str → Option Nat := fun _ => rt.toNat?
-      let (w1, o) := chooseProxyDialer w ob dst d route nOut
-      let (w2, calls) := afterProbe w1 o.probeReq ans
-      match o.outbound with
-      | none => (w2, s!"err calls={calls}")
-      | some ob => (w2, s!"ob={ob} t={hexOfStr o.target} ip={boolStr o.dialIp} calls={calls}")
+      let settle : World → Option Str → World := fun w pr => (afterProbe w pr ans).1
+      let (w2, outs) := routeDial w ob dst d route nOut (fail == "1") settle
+      -- did any attempt make the probe call a resolver?
+      let (wa, o1) := chooseProxyDialer w ob dst d route nOut
+      let p1 := (afterProbe wa o1.probeReq ans).2 > 0
+      let p2 := if outs.length > 1 then
+          let wb := settle wa o1.probeReq
+          let (wc, o2) := chooseProxyDialer wb ob dst d route nOut
+          (afterProbe wc o2.probeReq ans).2 > 0
+        else false
+      let n := outs.length
+      let fmt (io : Nat × DialOut) : String :=
+        match io.2.outbound with
+        | none => "err"
+        | some ob =>
+          s!"ob={ob} t={hexOfStr io.2.target}" ++ (if io.1 + 1 = n then s!" ip={boolStr io.2.dialIp}" else "")
+      (w2, " ; ".intercalate ((List.range n).zip outs |>.map fmt) ++ s!" probe={boolStr (p1 || p2)}")
     | _, _, _, _, _ => (w, "bad-op")
   | ["norm", r] =>
     match strOfHex? r with
@@ -122,6 +154,18 @@ def handle (w : World) (line : String) : World × String :=
     match strOfHex? d, p.toNat? with
     | some d, some p => let r := nameTarget d p; (w, s!"t={hexOfStr r.1} ip={boolStr r.2}")
     | _, _ => (w, "bad-op")
+  | ["sat", n] =>
+    -- saturation episode: n distinct names verified by positive probes on a fresh world
+    match n.toNat? with
+    | some n =>
+      let pos : List Ans := [⟨true, false, false, false⟩]
+      let r := (List.range n).foldl (fun (acc : World × Bool × Nat) i =>
+        let (w, ok, clears) := acc
+        let w' := step w (.probeDone ("sat-".toList ++ itoa i ++ ".test".toList) pos)
+        (w', ok && decide (w'.realSet.length ≤ realCap) && decide (w'.realAdds ≤ realCap),
+         if w'.realAdds < w.realAdds + 1 then clears + 1 else clears)) (({ mode := .domain } : World), true, 0)
+      (w, s!"bounded={boolStr r.2.1} clears={r.2.2}")
+    | none => (w, "bad-op")
   | ["reset"] => ({}, "ok")
   | _ => (w, "bad-op")
 
